@@ -15,7 +15,7 @@ from common import Ctx, Counters, Failure, confirm, main_wrapper, run_workers, l
 PID = "C20"
 RULE = ("for each initial content (fixed set + seeded random compositions of the C18 line alphabet) x {enable, disable}: a traced dry "
         "run lists every system call of the snoopyctl process from execve to exit; then the process is re-run once per call and "
-        "SIGKILLed on entry to exactly that call (= immediately after the previous one returned), and once per write-type call "
+        "SIGKILLed on entry to exactly that call (= immediately after the previous one returned; from the first touch of the file on also with SIGTERM/SIGHUP/SIGINT delivered there), and once per write-type call "
         "(write, pwrite64, openat/creat of the written file, fsync, fdatasync, ftruncate, fchmod, rename*, close, unlink) x "
         "{ENOSPC, EIO, EDQUOT} with that call failing; and once per size limit (RLIMIT_FSIZE = 1, 7, 16, half, all-but-one byte of the "
         "new content) so that the content write genuinely comes back short, and once per cap (1, 7, 16 bytes) with every write() "
@@ -254,6 +254,10 @@ def plans_for(calls, first_touch, quick):
             continue            # before the file is first touched the outcome is trivially "old": sample these
         yield "%s:signal=KILL:when=%d" % (name, ordinal), nontriv, ("kill", i, name)
         if nontriv:
+            # "killed" is not only SIGKILL: the signals a terminal, a package manager or a shutdown send can be caught, and whatever the
+            # command does when it catches one is part of the run
+            for sig in (("TERM",) if quick else ("TERM", "HUP", "INT")):
+                yield "%s:signal=%s:when=%d" % (name, sig, ordinal), True, ("signal:" + sig, i, name)
             errs = (ERRNOS if name in WRITE_CALLS else []) + ANY_ERRNOS + EXTRA_ERRNOS.get(name, [])
             for e in errs:
                 yield "%s:error=%s:when=%d" % (name, e, ordinal), True, ("fault:" + e, i, name)
